@@ -83,8 +83,8 @@ Definition argmax {X : Type} (sc : X -> F) (l : list X) (d : X) : X :=
 (* brute force over all r! matchings *)
 Definition best_perm (r : nat) (C : mat) : list nat := argmax (score r C) (all_perms r) (seq 0 r).
 
-Definition congruence (absv : bool) (As Bs : list mat) (nas nbs : list (list F)) (assign : mat -> list nat)
-  : res (F * list nat) :=
+(* validation + the matrix handed to linear_sum_assignment (and the common rank) *)
+Definition cong_matrix (absv : bool) (As Bs : list mat) (nas nbs : list (list F)) : res (nat * mat) :=
   if negb (Nat.eqb (length As) (length Bs)) then Err else
   match As with
   | [] => Err
@@ -93,9 +93,13 @@ Definition congruence (absv : bool) (As Bs : list mat) (nas nbs : list (list F))
     if negb (forallb (fun M => Nat.eqb (ncols M) r) (As ++ Bs)) then Err else
     if negb (forallb (fun ab => Nat.eqb (nrows (fst ab)) (nrows (snd ab))) (combine As Bs)) then Err else
     if existsb has_zero_col (As ++ Bs) then Err else
-    let C := cong_all absv r (zip_modes As Bs nas nbs) in
-    let p := assign C in
-    Ok (score r C p, p)
+    Ok (r, cong_all absv r (zip_modes As Bs nas nbs))
+  end.
+Definition congruence (absv : bool) (As Bs : list mat) (nas nbs : list (list F)) (assign : mat -> list nat)
+  : res (F * list nat) :=
+  match cong_matrix absv As Bs nas nbs with
+  | Err => Err
+  | Ok (r, C) => let p := assign C in Ok (score r C p, p)
   end.
 
 (* ---------- cp_tensor.py : cp_permute_factors (one tensor to permute) ---------- *)
@@ -108,6 +112,19 @@ Definition cp_permute_factors (ref fs : list mat) (w : list F) (nas nbs : list (
   match congruence true ref fs nas nbs assign with
   | Ok (_, p) => Ok (cp_permute p w fs, p)
   | Err => Err
+  end.
+
+(* tensors_to_permute given as a list: every tensor is matched against the reference on its own; an exception
+   for one of them aborts the whole call.  An entry = (weights, factors, norm tape of the factors). *)
+Fixpoint cp_permute_factors_list (ref : list mat) (nas : list (list F)) (ts : list (list F * list mat * list (list F)))
+  (assign : mat -> list nat) : res (list (list F * list mat * list nat)) :=
+  match ts with
+  | [] => Ok []
+  | (w, fs, nbs) :: rest =>
+    match cp_permute_factors ref fs w nas nbs assign, cp_permute_factors_list ref nas rest assign with
+    | Ok x, Ok xs => Ok (x :: xs)
+    | _, _ => Err
+    end
   end.
 
 (* ---------- metrics/similarity.py : correlation_index ---------- *)
